@@ -561,8 +561,11 @@ class Interp:
             ieq = z3.If(z3.And(int_like(x), int_like(y)), int_of(x) == int_of(y), x == y)
             from .builtins import isnan_f
             # identical terms compare equal except float NaN (the only builtin with x != x)
+            # == between scalar values of the modelled kinds is symmetric: the uninterpreted
+            # application takes its arguments in a canonical order (A-eq-sym)
+            xa, ya = (x, y) if x.sexpr() <= y.sexpr() else (y, x)
             return z3.If(z3.And(simple(x), simple(y)), ieq,
-                         z3.If(x == y, z3.Not(z3.And(PyVal.is_PF(x), isnan_f(x))), PyVal.b(binop(OP['eq'], x, y))))
+                         z3.If(x == y, z3.Not(z3.And(PyVal.is_PF(x), isnan_f(x))), PyVal.b(binop(OP['eq'], xa, ya))))
         return veq(a, b)
 
     def contains(self, container, item):
@@ -624,6 +627,23 @@ class Interp:
         raise Unsupported('dict comprehension')
 
     def e_Call(self, node, env):
+        if isinstance(node.func, ast.Attribute) and node.func.attr == 'sort' and isinstance(node.func.value, ast.Name) \
+                and not node.args:
+            try:
+                cur = env.lookup(node.func.value.id)
+            except KeyError:
+                cur = None
+            if isinstance(cur, VSeq) and cur.kind == 'list':
+                # in-place sort of a local list held as a sequence term: functional update, name rebound
+                kw = {k.arg: self.eval(k.value, env) for k in node.keywords}
+                if set(kw) - {'key', 'reverse'}:
+                    raise Unsupported('list.sort arguments')
+                new = self.B.list_sort(self, cur, kw.get('key'), kw.get('reverse'))
+                e = env
+                while e is not None and node.func.value.id not in e.vars:
+                    e = e.parent
+                (e or env).vars[node.func.value.id] = new
+                return NONE
         f = self.eval(node.func, env)
         if isinstance(f, VClass) and issubclass(f.pycls, BaseException):
             return VExc(f.pycls)     # message argument dropped (DROPS item 4)
